@@ -14,8 +14,9 @@ REPO = os.environ.get("VERIF_REPO", "/repo")
 
 # (id, property, kind, file, old, new, rule)   kind: MUST = must be reported under `rule`; KEEP = must stay silent
 M = []
-def mut(id, prop, kind, file, old, new, rule=""):
-    M.append(dict(id=id, prop=prop, kind=kind, file=file, old=old, new=new, rule=rule))
+def mut(id, prop, kind, file, old, new, rule="", nth=0):
+    # nth > 0: the anchor text occurs several times; edit the nth occurrence (1-based)
+    M.append(dict(id=id, prop=prop, kind=kind, file=file, old=old, new=new, rule=rule, nth=nth))
 
 exec(open(os.path.join(V, "tools", "mutants_table.py")).read())
 
@@ -62,9 +63,17 @@ def main():
                 continue
             path = os.path.join(repo, m["file"])
             src = open(path).read()
-            if src.count(m["old"]) != 1:
+            if m["nth"]:
+                if src.count(m["old"]) < m["nth"]:
+                    print(f"{m['id']:28} STALE   (anchor text occurs {src.count(m['old'])} times in {m['file']})"); bad += 1; continue
+                pos = -1
+                for _ in range(m["nth"]):
+                    pos = src.index(m["old"], pos + 1)
+                open(path, "w").write(src[:pos] + m["new"] + src[pos + len(m["old"]):])
+            elif src.count(m["old"]) != 1:
                 print(f"{m['id']:28} STALE   (anchor text occurs {src.count(m['old'])} times in {m['file']})"); bad += 1; continue
-            open(path, "w").write(src.replace(m["old"], m["new"]))
+            else:
+                open(path, "w").write(src.replace(m["old"], m["new"]))
             try:
                 pkg = "./" + os.path.dirname(m["file"]) if os.path.dirname(m["file"]) else "."
                 b = subprocess.run(["go", "build", pkg], cwd=repo, env=env, capture_output=True, text=True)
